@@ -324,19 +324,21 @@ theorem afc_values_pinned_init (b : Buf) (o : Nat) (m0 : PSIPMsg) (len kh kc : N
     (MsgSafe_init b o ho m0 len kh kc hdrs cts) q3 q2 g2 g1 hr
 
 /-- **[C05] … under every chunk schedule, from Init**: if the chain of resumed calls over growing prefixes ends with
-    OK, the final object is the object of ONE call on a buffer `b` of the schedule and satisfies the pinned statement
-    relative to the accepted lines of `b` -/
+    OK, the final object is the object of ONE call on a buffer `b` of the schedule — a prefix of the last buffer `B`, so
+    every span is a span of `B` with the same bytes — and satisfies the pinned statement relative to the accepted lines
+    of `b` -/
 theorem afc_values_pinned_schedule_init (flags : Nat) (o : Nat) (m0 : PSIPMsg) (len kh kc : Nat)
     (hdrs cts : Option Unit) (l : List Buf) (hg : Growing l) (hfit : ∀ x ∈ l, x.size ≤ 65535) (hne : l ≠ [])
-    (ho : ∀ b ∈ l, o ≤ b.size) {o' : Nat} {m' : PSIPMsg}
+    (ho : ∀ b ∈ l, o ≤ b.size) {B : Buf} (hB : l.getLast? = some B) {o' : Nat} {m' : PSIPMsg}
     (hr : resumeRun (C01.msgP flags) o
       (m0.init len (hdrs.map fun _ => Array.replicate kh {}) (cts.map fun _ => Array.replicate kc {})) l = (o', .ok, m')) :
-    ∃ b ∈ l, parseSIPMsg b o
+    ∃ b ∈ l, (∃ t, B = b ++ t) ∧ parseSIPMsg b o
         (m0.init len (hdrs.map fun _ => Array.replicate kh {}) (cts.map fun _ => Array.replicate kc {})) flags = (o', .ok, m') ∧
       AfcMsg (afcMsgLines b o (m0.init len (hdrs.map fun _ => Array.replicate kh {}) (cts.map fun _ => Array.replicate kc {})))
         m' := by
   obtain ⟨b, hb, h⟩ := flo_schedule_init flags o m0 len kh kc hdrs cts l hg hfit hne ho hr
-  exact ⟨b, hb, h, afc_values_pinned_init b o m0 len kh kc hdrs cts flags (hfit b hb) (ho b hb) h⟩
+  exact ⟨b, hb, mlf_growing_last hg hB b hb, h,
+    afc_values_pinned_init b o m0 len kh kc hdrs cts flags (hfit b hb) (ho b hb) h⟩
 
 /-! #### what `AfcAssoc` says: the map form -/
 
@@ -379,7 +381,10 @@ theorem AfcAssoc.map {ty : Nat} {gs : List Hdr} {vals : Array PFromBody} {n hNo 
     · obtain ⟨i, a1, a2, a3⟩ := hx_block_exists cnt k (by rw [h5]; exact hk)
       exact ⟨i, fun _ => ⟨a1, a2, a3⟩⟩
     · exact ⟨0, fun hh => absurd hh hk⟩
-  obtain ⟨blk, hblk⟩ := Classical.axiomOfChoice hb
+  have hblk : ∀ k, k < n → ((fun k => Classical.choose (hb k)) k < cnt.length ∧
+      hxStart cnt ((fun k => Classical.choose (hb k)) k) ≤ k ∧ k < hxStart cnt ((fun k => Classical.choose (hb k)) k + 1)) :=
+    fun k => Classical.choose_spec (hb k)
+  generalize (fun k => Classical.choose (hb k)) = blk at hblk
   have hget : ∀ k, k < n → (afcIdx ty gs)[blk k]? = some (afcIdx ty gs)[blk k]! := by
     intro k hk
     have hlt : blk k < (afcIdx ty gs).length := by rw [h2, ← h3]; exact (hblk k hk).1
@@ -432,6 +437,19 @@ theorem AfcAssoc.plAssoc {ty : Nat} {gs : List Hdr} {hl : HdrLst} {vals : Array 
 
 theorem AfcMsg.plMsg {gs : List Hdr} {m : PSIPMsg} (h : AfcMsg gs m) : PlMsg m :=
   ⟨h.contacts.plAssoc h.stored, h.pais.plAssoc h.stored⟩
+
+/-- … and the exact association of HnoExact (`HxAssoc`: ghost TYPES of the lines that are not stored, comparison only if the
+    line is stored): take the types of the entries of `gs` -/
+theorem AfcAssoc.hxAssoc {ty : Nat} {gs : List Hdr} {hl : HdrLst} {vals : Array PFromBody} {n hNo : Nat}
+    (S : AfcStored gs hl) (H : AfcAssoc ty gs vals n hNo) : HxAssoc ty hl vals n hNo := by
+  obtain ⟨cnt, h2, h3, h4, h5, h6⟩ := H
+  have hidx : hxIdx ty (fun j => gs[j]!.type) hl.n = afcIdx ty gs := by unfold afcIdx; rw [S.1]
+  refine ⟨fun j => gs[j]!.type, cnt, fun j hj hjs => by rw [S.2 j hj hjs], by rw [hidx]; exact h2, h3, h4, h5,
+    fun i j hij k k1 k2 k3 hjs => ?_⟩
+  rw [hidx] at hij
+  have hj := (afcIdx_lt hij).1
+  rw [S.2 j (by rw [← S.1]; exact hj) hjs]
+  exact h6 i j hij k k1 k2 k3
 
 /-- **`AfcMsg`, spelled out for the Contact values** (the identities: the same with `pais`): `gs` has one entry per counted
     header line, the stored headers are entries of `gs`, and there is a monotone map `f` into the positions of `gs` with:
@@ -1374,5 +1392,238 @@ theorem afc_moreBytes_at {b : Buf} {o flags r : Nat} {p' : PTokParam}
   have := afc_pv_run flags o b o o {} (PVAt.init o o (Pad.nil o) (Lws.nil o)) (Or.inl (Or.inl rfl))
   rw [← parseTokenParam_run flags b o {} (by decide), h] at this
   exact this rfl
+
+/-! ### the converse: every text of the pinned description is suspended at that very offset -/
+
+/-- white space up to the end of the input, end-of-input option off: skipLWS asks for more bytes -/
+theorem afc_skipLWS_end_more {b : Buf} {i p : Nat} (f : Nat) (h : Lws b i p) (he : EndTail b p)
+    (hf : hasFlag f POptInputEndF = false) : ∃ n crl, skipLWS b i f = (n, crl, .moreBytes) := by
+  induction h with
+  | nil i =>
+    cases he with
+    | none h0 => exact ⟨i, 0, skipLWS_none h0⟩
+    | one c h0 hcr h1 =>
+      have hs : skipCRLF b i = (i, 0, .moreBytes) := by
+        unfold skipCRLF; rw [h1, h0]; simp only
+        unfold isCRLFch at hcr
+        simp only [Bool.or_eq_true, beq_iff_eq] at hcr
+        rcases hcr with hcr | hcr <;> (rw [hcr]; rfl)
+      exact ⟨i, 0, skipLWS_crlf_err h0 (crlf_not_ws hcr) hcr hs (by intro h; cases h)⟩
+    | crlf h0 h1 h2 =>
+      have hs : skipCRLF b i = (i + 2, 2, .ok) := by
+        unfold skipCRLF; rw [h1, h0]; rfl
+      refine ⟨i, 0, ?_⟩
+      rw [skipLWS_crlf_end h0 (by decide) (by decide) hs h2, hf]
+      rfl
+  | ws i n c1 h1 hw _ ih => rw [skipLWS_ws h1 hw]; exact ih he
+  | fold i e' n c3 he' h3 hw3 _ ih =>
+    obtain ⟨c0, h0, hw0, hcr0, _⟩ := he'.first
+    rw [skipLWS_crlf_ws h0 hw0 hcr0 he'.skipCRLF h3 hw3]; exact ih he
+
+theorem afc_sq_more_run {b : Buf} {i n : Nat} (h : PVQPre b i n) (hn : b[n]? = none) :
+    runLoop sqMachine b i () = (n, .moreBytes, ()) := by
+  induction h with
+  | nil i => rw [runLoop_none sqMachine () hn]; rfl
+  | plain i e c0 h0 hq _ ih =>
+    rw [runLoop_cont sqMachine h0 (by exact sqStep_plain hq), if_pos (by omega)]; exact ih hn
+  | esc i e c1 h0 h1 hcr _ ih =>
+    have hs : sqMachine.step b i 92 () = .cont (i + 2) () := by
+      show sqStep b i 92 () = _
+      unfold sqStep
+      rw [h1]
+      simp [hcr]
+    rw [runLoop_cont sqMachine h0 hs, if_pos (by omega)]; exact ih hn
+
+theorem afc_sq_moreEsc_run {b : Buf} {i n : Nat} (h : PVQPre b i n) (h92 : b[n]? = some 92) (hn : b[n + 1]? = none) :
+    runLoop sqMachine b i () = (n, .moreBytes, ()) := by
+  induction h with
+  | nil i =>
+    have hs : sqMachine.step b i 92 () = .done i .moreBytes () := by
+      show sqStep b i 92 () = _
+      unfold sqStep; rw [hn]; rfl
+    exact runLoop_done sqMachine h92 hs
+  | plain i e c0 h0 hq _ ih =>
+    rw [runLoop_cont sqMachine h0 (by exact sqStep_plain hq), if_pos (by omega)]; exact ih h92 hn
+  | esc i e c1 h0 h1 hcr _ ih =>
+    have hs : sqMachine.step b i 92 () = .cont (i + 2) () := by
+      show sqStep b i 92 () = _
+      unfold sqStep
+      rw [h1]
+      simp [hcr]
+    rw [runLoop_cont sqMachine h0 hs, if_pos (by omega)]; exact ih h92 hn
+
+/-- white space that ends right after a byte that is not white space is empty -/
+theorem afc_lws_nil_of_pin {b : Buf} {x i : Nat} (h : Lws b x i)
+    (hpin : ∃ c, 0 < i ∧ b[i - 1]? = some c ∧ isLWSch c = false) : x = i := by
+  have hle := h.le
+  rcases Nat.lt_or_ge x i with hlt | hge
+  · exfalso
+    obtain ⟨c, hc, hw⟩ := h.last hlt
+    obtain ⟨c', _, hc', hl'⟩ := hpin
+    rw [hc] at hc'
+    cases hc'
+    rw [(lws_split hl').1] at hw
+    cases hw
+  · omega
+
+/-- **a pinned position of the description is reached by the loop** in the state of the description -/
+theorem afc_reach_pinned {flags offs : Nat} {b : Buf} {o : Nat} {p0 : PTokParam} {i : Nat} {st : TPState}
+    (hst0 : p0.state = .init) (h : PVAt b flags o i st) (hne : st ≠ .quotedVal)
+    (hpin : ∃ c, 0 < i ∧ b[i - 1]? = some c ∧ isLWSch c = false) : PVReach flags offs b o p0 i st := by
+  cases h with
+  | init t i hp hl =>
+    have := afc_lws_nil_of_pin hl hpin
+    subst this
+    exact ⟨p0, hst0, tp_pad flags offs b hp p0 (Or.inl hst0)⟩
+  | name n0 i hh => exact pv_reach_head hst0 hh
+  | fEq n0 n1 i hh hl hlt =>
+    have := afc_lws_nil_of_pin hl hpin
+    omega
+  | fVal q i he hl =>
+    have := afc_lws_nil_of_pin hl hpin
+    subst this
+    exact pv_reach_eq hst0 he
+  | val q v0 i he hl hr hv => exact pv_reach_tok hst0 he hl hr hv
+  | quotedVal q v0 he hl h34 => exact absurd rfl hne
+  | fSepTok q v0 v1 i he hl hr hv hl2 hlt2 =>
+    have := afc_lws_nil_of_pin hl2 hpin
+    omega
+  | fSepQuo q v0 qe i he hl h34 hqb hl2 =>
+    have := afc_lws_nil_of_pin hl2 hpin
+    subst this
+    exact pv_reach_quo hst0 he hl h34 hqb
+  | fNxt j s t i hd hl1 hs hp hl2 =>
+    have := afc_lws_nil_of_pin hl2 hpin
+    subst this
+    obtain ⟨p, hp', hr⟩ := pv_reach_sep (offs := offs) hst0 hd hl1 hs
+    exact ⟨p, hp', by rw [hr, tp_pad flags offs b hp p (Or.inr (Or.inr hp'))]⟩
+
+/-- **[C17] completeness of the pinned description**: every text of the shape `PVMoreAt … r` is suspended with
+    `MoreBytes` at `r` -/
+theorem afc_moreBytes_complete {b : Buf} {o flags r : Nat} (h : PVMoreAt b flags o r) :
+    (parseTokenParam b o {} flags).1 = r ∧ (parseTokenParam b o {} flags).2.1 = .moreBytes := by
+  rw [parseTokenParam_run flags b o {} (by decide)]
+  cases h with
+  | lws st q hf hP hne hpin hlw hend =>
+    have hreach : ∃ p1 : PTokParam, (p1.state ≠ .quotedVal ∧ p1.state ≠ .err ∧ p1.state ≠ .fin) ∧
+        runLoop (tpMachine flags o) b o {} = runLoop (tpMachine flags o) b r p1 := by
+      rcases hpin with rfl | hpin
+      · exact ⟨{}, by decide, rfl⟩
+      · obtain ⟨p1, hp1, hr⟩ := afc_reach_pinned (offs := o) (p0 := {}) rfl hP hne hpin
+        exact ⟨p1, by rw [hp1]; exact ⟨hne, hP.live.1, hP.live.2.1⟩, hr⟩
+    obtain ⟨p1, hne1, hr⟩ := hreach
+    have hmb : tpMoreBytes b flags p1 r = (r, .moreBytes, p1) := by
+      unfold tpMoreBytes
+      rw [if_neg (by rw [hf]; decide)]
+    rw [hr]
+    cases hb : b[r]? with
+    | none =>
+      rw [runLoop_none (tpMachine flags o) p1 hb]
+      show (tpMoreBytes b flags p1 r).1 = r ∧ (tpMoreBytes b flags p1 r).2.1 = .moreBytes
+      rw [hmb]; exact ⟨rfl, rfl⟩
+    | some c0 =>
+      have hl0 : isLWSch c0 = true := by
+        by_cases h1 : r < q
+        · obtain ⟨c1, h1', h2⟩ := hlw.first h1
+          rw [hb] at h1'; cases h1'; exact h2
+        · have := hlw.le
+          have : r = q := by omega
+          subst this
+          exact hend.first hb
+      obtain ⟨upd, _, hstep⟩ := pv_lws_of_state (flags := flags) (offs := o) (b := b) (i := r) (p := p1) hne1
+      obtain ⟨n, crl, hsk⟩ := afc_skipLWS_end_more flags hlw hend hf
+      have hs : (tpMachine flags o).step b r c0 p1 = .done r .moreBytes p1 := by
+        show tpStep flags o b r c0 p1 = _
+        rw [hstep c0 hl0, tpLWS_more p1 upd hsk, hmb]
+        rfl
+      rw [runLoop_done (tpMachine flags o) hb hs]
+      exact ⟨rfl, rfl⟩
+  | quoted q v0 he hl h34 hpre hn =>
+    obtain ⟨p1, hp1, hr⟩ := pv_reach_quote (offs := o) (p0 := {}) rfl he hl h34
+    rw [hr]
+    cases hb : b[v0 + 1]? with
+    | none =>
+      have hrv : r = v0 + 1 := by
+        cases hpre with
+        | nil => rfl
+        | plain i' e' c0 h0 _ _ => rw [hb] at h0; cases h0
+        | esc i' e' c1 h0 _ _ _ => rw [hb] at h0; cases h0
+      rw [runLoop_none (tpMachine flags o) p1 hb]
+      show (tpMoreBytes b flags p1 (v0 + 1)).1 = r ∧ (tpMoreBytes b flags p1 (v0 + 1)).2.1 = .moreBytes
+      rw [pv_tpMoreBytes_quoted b flags p1 (v0 + 1) hp1, hrv]
+      exact ⟨rfl, rfl⟩
+    | some c1 =>
+      have hq : skipQuoted b (v0 + 1) = (r, .moreBytes) := by
+        unfold skipQuoted; rw [afc_sq_more_run hpre hn]
+      have hstep : (tpMachine flags o).step b (v0 + 1) c1 p1 = .done r .moreBytes p1 := by
+        show tpStep flags o b (v0 + 1) c1 p1 = _
+        unfold tpStep; simp only [hp1]; rw [hq]
+        show stepOfRes (tpMoreBytes b flags p1 r) = _
+        rw [pv_tpMoreBytes_quoted b flags p1 r hp1]
+        rfl
+      rw [runLoop_done (tpMachine flags o) hb hstep]
+      exact ⟨rfl, rfl⟩
+  | quotedEsc q v0 he hl h34 hpre h92 hn =>
+    obtain ⟨p1, hp1, hr⟩ := pv_reach_quote (offs := o) (p0 := {}) rfl he hl h34
+    obtain ⟨c1, hc1⟩ := hpre.first h92
+    have hq : skipQuoted b (v0 + 1) = (r, .moreBytes) := by
+      unfold skipQuoted; rw [afc_sq_moreEsc_run hpre h92 hn]
+    have hstep : (tpMachine flags o).step b (v0 + 1) c1 p1 = .done r .moreBytes p1 := by
+      show tpStep flags o b (v0 + 1) c1 p1 = _
+      unfold tpStep; simp only [hp1]; rw [hq]
+      show stepOfRes (tpMoreBytes b flags p1 r) = _
+      rw [pv_tpMoreBytes_quoted b flags p1 r hp1]
+      rfl
+    rw [hr, runLoop_done (tpMachine flags o) hc1 hstep]
+    exact ⟨rfl, rfl⟩
+
+/-- **[C17] `MoreBytes` at `r`, exactly**: for every buffer, start offset and option word, ParseTokenParam on a new
+    object returns `MoreBytes` with offset `r` IFF the pinned description `PVMoreAt b flags o r` holds -/
+theorem afc_moreBytes_iff (b : Buf) (o flags r : Nat) :
+    ((parseTokenParam b o {} flags).1 = r ∧ (parseTokenParam b o {} flags).2.1 = .moreBytes) ↔ PVMoreAt b flags o r := by
+  constructor
+  · rintro ⟨h1, h2⟩
+    rcases hp : parseTokenParam b o {} flags with ⟨r1, e, p'⟩
+    rw [hp] at h1 h2
+    simp only at h1 h2
+    subst h1 h2
+    exact afc_moreBytes_at hp
+  · exact afc_moreBytes_complete
+
+/-- test: the description WITHOUT the pin (`PVMore`) holds at offset 6 of `a = b SP CR LF` (the text `[0, 6)` is `a = b SP`,
+    state "after a value", the rest `CR LF` is white space cut by the end) — but the parser reports `MoreBytes` at 5, the
+    START of the white space; the pinned description holds at 5 and NOT at 6 -/
+example : (parseTokenParam "a = b \r\n".toUTF8.data 0 {} 0).1 = 5 ∧
+    (parseTokenParam "a = b \r\n".toUTF8.data 0 {} 0).2.1 = .moreBytes ∧
+    PVMoreAt "a = b \r\n".toUTF8.data 0 0 5 ∧ ¬ PVMoreAt "a = b \r\n".toUTF8.data 0 0 6 := by
+  have h1 : (parseTokenParam "a = b \r\n".toUTF8.data 0 {} 0).1 = 5 ∧
+      (parseTokenParam "a = b \r\n".toUTF8.data 0 {} 0).2.1 = .moreBytes := by decide +kernel
+  refine ⟨h1.1, h1.2, (afc_moreBytes_iff _ 0 0 5).1 h1, fun h6 => ?_⟩
+  have := (afc_moreBytes_iff _ 0 0 6).2 h6
+  rw [h1.1] at this
+  exact absurd this.1 (by decide)
+
+/-- test: … and the description without the pin, `PVMore`, does hold at 6 on that text (state "after a value": `a = b SP`,
+    then `CR LF` cut by the end of the buffer): `PVMore` alone does not characterise the returned offset -/
+example : PVMore "a = b \r\n".toUTF8.data 0 0 6 := by
+  have hsep : tpSep 0 = 59 := by decide
+  have hterm : tpTerm 0 = 0 := by decide
+  refine PVMore.lws .fSep 6
+    (PVAt.fSepTok 2 4 5 6
+      ⟨0, 1, ⟨0, 97, Pad.nil 0, Lws.nil 0, by decide, by decide, by rw [hsep]; decide, (fun k h1 h2 => by omega),
+        by omega⟩, Lws.ws 1 2 32 (by decide) (by decide) (Lws.nil 2), by decide⟩
+      (Lws.ws 3 4 32 (by decide) (by decide) (Lws.nil 4)) ?_ (by omega)
+      (Lws.ws 5 6 32 (by decide) (by decide) (Lws.nil 6)) (by omega))
+    (by decide) (Lws.nil 6) (EndTail.crlf 6 (by decide) (by decide) (by decide))
+  intro k h1 h2
+  have : k = 4 := by omega
+  subst this
+  exact ⟨98, by decide, by decide, by rw [hsep]; decide, by rw [hterm]; decide⟩
+
+/-- test: with the end-of-input option (flag word 64) the same text is accepted (`EOH`), not suspended; inside an open
+    quoted string the call is suspended at the end of the buffer whatever the option -/
+example : (parseTokenParam "a = b \r\n".toUTF8.data 0 {} POptInputEndF).2.1 = .eoh ∧
+    (parseTokenParam "a=\"bc".toUTF8.data 0 {} POptInputEndF).1 = 5 ∧
+    (parseTokenParam "a=\"bc".toUTF8.data 0 {} POptInputEndF).2.1 = .moreBytes := by decide +kernel
 
 end Sipsp
